@@ -99,6 +99,7 @@ TRUTHY = [1, 2, -1, 'x', 0.5, True, [0], '0']
 FALSY = [0, '', None, 0.0, False, [], 0, '']
 RHS_FAMILY = {'str_bin': 'str', 'str_hex': 'str', 'str_oct': 'str', 'str_mix': 'str', 'str_uint': 'str',
               'bytes': 'bytes-like', 'bytearray': 'bytes-like', 'memoryview': 'bytes-like', 'array': 'bytes-like',
+              'memoryview_cast': 'bytes-like', 'array_H': 'bytes-like',
               'bytesio': 'file-like', 'filehandle': 'file-like',
               'list': 'iterable', 'tuple': 'iterable', 'gen': 'iterable', 'truthy': 'iterable', 'truthy_iter': 'iterable',
               'bitarray': 'bitarray', 'frozenbitarray': 'bitarray'}
@@ -559,7 +560,7 @@ def rhs_for(rng, bits):
     if 0 < L <= 5000:
         kinds += ['str_uint']
     if L % 8 == 0:
-        kinds += ['bytes', 'bytes', 'bytearray', 'memoryview', 'array', 'bytesio']
+        kinds += ['bytes', 'bytes', 'bytearray', 'memoryview', 'memoryview_cast', 'array', 'array_H', 'bytesio']
         if L >= 8:
             kinds += ['filehandle']
     return [rng.choice(kinds), bits, rng.randrange(8)]
@@ -598,6 +599,13 @@ def build_rhs(rhs, made):
         return memoryview(to_raw(bits))
     if kind == 'array':
         return array.array('B', to_raw(bits))
+    if kind == 'memoryview_cast':
+        # the same bytes seen as 2- or 4-byte items (len() of such a view counts items, not bytes)
+        mv = memoryview(to_raw(bits))
+        return mv.cast('I') if L % 32 == 0 and L else mv.cast('H') if L % 16 == 0 and L else mv
+    if kind == 'array_H':
+        raw = to_raw(bits)
+        return array.array('H', raw) if L % 16 == 0 else array.array('B', raw)
     if kind == 'bytesio':
         return io.BytesIO(to_raw(bits))
     if kind == 'list':
